@@ -389,6 +389,85 @@ def r6_memory_history(ctx, F):
         ctx.violation("memory-history", mem_get.loc(), "Memory::get_state_at: " + bad)
 
 
+def r7_stack_history(ctx, F):
+    """the stack the step iterator reports for a clock value is the stack of that trace row, elements below the top 16
+    included: Stack::get_state_at(clk) must take the top 16 from StackTrace at `clk` and the deeper elements from the overflow
+    table's own history at `clk`; OverflowTable::{new, new_with_inputs, push, pop} are interpreted (history enabled) for a
+    scenario of pushes and pops - with and without initial deep inputs - and the live content (`append_into`, what
+    build_stack_outputs and the trace use) is recorded at the beginning of every cycle; afterwards
+    `append_state_into(clk)` is interpreted for every clock of the scenario and must reproduce the live content of that
+    clock (self-consistency: no external oracle)."""
+    OT = r"^miden_processor::stack::overflow::OverflowTable::"
+    f_new, f_newi = F.fn(OT + "new$"), F.fn(OT + "new_with_inputs$")
+    f_push, f_pop = F.fn(OT + "push$"), F.fn(OT + "pop$")
+    f_live, f_hist = F.fn(OT + "append_into$"), F.fn(OT + "append_state_into$")
+    gsa = F.fn(r"^miden_processor::stack::Stack::get_state_at$")
+    # composition in Stack::get_state_at: top 16 from the trace at clk, the rest from the overflow table (live or history)
+    callees = [c for bi, c, t in gsa.calls()]
+    ctx.inst(key="get_state_at-composition", nontrivial=True)
+    okc = any(c.endswith("StackTrace::append_state_into") for c in callees) and any(c.endswith("OverflowTable::append_state_into") for c in callees)
+    ctx.oblig(okc)
+    if not okc:
+        ctx.violation("stack-history|composition", gsa.loc(), "Stack::get_state_at must combine StackTrace::append_state_into(clk) with the overflow table's state at clk (calls: %s)" % sorted(set(callees)))
+
+    def vec():
+        return Agg([], "vec")
+
+    def content(I, fn, table, *extra):
+        v = vec()
+        I.call(fn.id, [Ptr([table], 0), Ptr([v], 0)] + list(extra))
+        return [repr(deref(x)) for x in v.items]
+
+    # op executed at cycle c: kind. A push at cycle c is keyed Felt::from(c) by Stack::shift_right, a pop by clk = c (shift_left)
+    events = {2: "push", 3: "push", 6: "pop", 7: "pop", 9: "push", 11: "pop", 13: "push", 14: "push", 16: "pop"}
+    last = 19
+    n_points = 0
+    for n_init in (0, 2, 3):
+        I = Interp(F)
+        procmodel.install_field(I)
+        key = "overflow-history|init=%d" % n_init
+        ctx.inst(key=key, nontrivial=True)
+        try:
+            if n_init:
+                init = Agg([Poly.var("in%d" % i) for i in range(n_init)], "array")
+                table = deref(I.call(f_newi.id, [True, SlicePtr(init.items, 0, n_init)]))
+            else:
+                table = deref(I.call(f_new.id, [True]))
+            live = {}
+            k = 0
+            for c in range(last + 1):
+                live[c] = content(I, f_live, table)
+                ev = events.get(c)
+                if ev == "push":
+                    I.call(f_push.id, [Ptr([table], 0), Poly.var("x%d" % k), Poly.const(c)])
+                    k += 1
+                elif ev == "pop" and live[c]:
+                    I.call(f_pop.id, [Ptr([table], 0), c])
+            first_event = min(events)
+            for c in range(last + 1):
+                got = content(I, f_hist, table, c)
+                n_points += 1
+                ok = got == live[c]
+                ctx.oblig(ok)
+                if ok:
+                    continue
+                if c in events and c + 1 in live and got == live[c + 1]:
+                    # exactly the content of the next row: the history is keyed by the cycle of the operation that changes it
+                    kind = "next-row-reported-at-the-clock-of-an-overflow-event"
+                elif n_init and c < first_event:
+                    kind = "deep-inputs-before-first-event"
+                else:
+                    kind = "clk=%d" % c
+                ctx.violation("stack-history|%s|init=%d" % (kind, n_init), f_hist.loc(),
+                              "with %d initial deep element(s), overflow events %s: the overflow history at clk %d is %s but the table held %s at the beginning of that cycle "
+                              "(what the trace row and build_stack_outputs see): the step iterator reports a stack that is not the stack of row %d"
+                              % (n_init, sorted(events.items()), c, got, live[c], c))
+        except (Unanalysable, PanicReached) as e:
+            ctx.violation("UNANALYSABLE|" + key, f_hist.loc(), str(e)[:300])
+    ctx.analysed("OverflowTable history interpreted at %d (scenario, clk) points" % n_points)
+    ctx.floor("stack-history-points", n_points, 40)
+
+
 def run(ctx, F):
     ctx.trusted += ["rustc MIR via mirfacts", "srcx (syn) for trait signatures", "mirsym for the iterator methods"]
     ctx.assumptions += ["equality of whole traces across runs is not decided; the rules exclude the listed sources of nondeterminism and state mutation"]
@@ -398,3 +477,4 @@ def run(ctx, F):
     ctx.run_rule("C14-R5", "debug-mode instruction tracking (track_instruction / set_instruction_cycle_count, interpreted on small builder states for all bodies of <= 2 operations and <= 2 decorators) leaves the operations and every non-AsmOp decorator exactly as in release mode", r5_debug_tracking, F)
     ctx.run_rule("C14-R4", "VmStateIterator::next/back read ctx, fmp, stack and memory at the very clock value they report, for both previous directions; clk pushes the clock", r4_iterator, F)
     ctx.run_rule("C14-R6", "the memory reported for a clock value is the memory of that trace row: Memory::get_state_at interpreted on a scenario with repeated accesses of one address, several addresses and two contexts lists, for every clock, the latest word accessed before that clock", r6_memory_history, F)
+    ctx.run_rule("C14-R7", "the stack reported for a clock value is the stack of that trace row below position 15 as well: the overflow table's history (append_state_into), interpreted after a scenario of pushes and pops with 0, 2 and 3 initial deep inputs, reproduces at every clock the live content the table had at the beginning of that cycle", r7_stack_history, F)
